@@ -10,17 +10,41 @@
                 type); the int*float product of ScaledInteger can not overflow (Base/F64Repr.v)
    (canonical)  which JSON kinds denote a value of which type, lengths and leaf values preserved
                                                                                           -- C01_import_kinds, C01_array_length
-   (idempotent) validate(validate(v)) = validate(v)                                      -- oracle + correspondence only (partial) *)
+                the returned value has the canonical representation kind of its type at every depth
+                (double/scaled -> float, int -> int, bool -> bool, enum -> declared member, string -> str,
+                blob -> bytes, array/tuple -> tuple of canonical members (tuple: right length), struct -> mapping
+                with distinct declared keys)                                              -- C01_canonical_kind, C01_wire_canonical_kind
+   (idempotent) validate(validate(v, prev)) = validate(v, prev), bit for bit, with previous None and with previous
+                = the value itself, for every tree, every offered value and every stable previous value
+                                                                                          -- C01_validate_idempotent_except_huge_grids,
+                C01_wire_idempotent_except_huge_grids (all trees whose scaled leaves have at most 2^48 grid steps on
+                either side of zero and a normal scale <= 2^900: small_grids d, a boolean on the datatype),
+                C01_validate_idempotent_partial / C01_wire_idempotent_partial (all trees; at scaled leaves under the
+                value-level side condition scaled_ok), C01_scaled_small_grid_regular (the side condition holds on
+                small grids: Flocq error analysis), C01_stable_fixed_point,
+                C01_refuted_idempotent_scaled_huge (Refuted.v: a grid beyond 2^52 steps where it fails)
+
+   FULL STATEMENT of idempotence (false by Refuted.v, reproduced on the implementation):
+     forall d, wf d -> idem_dt d = true -> forall v prev w, prev_st d prev -> dt_validate d v prev = Ok w ->
+       res_same (dt_validate d w PNone) (Ok w) = true.
+   Proved: the same with the extra hypothesis small_grids d = true (datatype level), and with the extra hypothesis
+   scaled_ok d w = true (value level: at every scaled leaf of w the value is reproduced by ScaledInteger.__call__
+   and lies strictly inside min - scale < value < max + scale).  Not proved: grids between 2^48 and 2^52 steps
+   (covered only by the value-level statement); beyond 2^52 steps the statement is false.
+   idem_dt d is what the constructors guarantee: limits of a double pass through FloatRange.__call__ (never the
+   negative zero, never infinite), relative_resolution is a finite number, enum values are distinct; it is
+   evaluated on every generated datatype by Run.check_case and pinned by two translator facts. *)
 From Coq Require Import ZArith NArith Bool List.
 Import ListNotations.
-Require Import FV.Gen.C01 FV.Base.F64 FV.Base.PyVal FV.C01.Model FV.C01.Lemmas.
+Require Import FV.Gen.C01 FV.Base.F64 FV.Base.PyVal FV.C01.Model FV.C01.IdemDefs FV.C01.Lemmas FV.C01.F64More FV.C01.Idem FV.C01.ScaledGrid FV.C01.IdemSmall FV.C01.Refuted.
 
 Theorem C01_source_facts :
   unlimited_is_2_64 = true /\ clamp_is_median_of_sorted = true /\ float_validate_shape = true /\
   int_validate_shape = true /\ scaled_validate_shape = true /\ generic_import_is_call = true /\
   containers_wrap_element_errors = true /\ sequences_check_before_import = true /\
   sequences_reject_str_bytes_dict = true /\ struct_requires_dict = true /\ blob_import_strict = true /\
-  struct_checks_missing_after_merge = true.
+  struct_checks_missing_after_merge = true /\ float_properties_pass_through_float_call = true /\
+  enum_refuses_duplicates = true.
 Proof. repeat split; reflexivity. Qed.
 
 Theorem C01_validate_sound : forall d, wf d -> forall v prev r,
@@ -60,6 +84,57 @@ Theorem C01_clamp_between : forall lo v hi,
   (fle lo v = true -> fle v hi = true -> fclamp lo v hi = v).
 Proof. exact F64Lemmas.fclamp_between. Qed.
 
+(* ---- idempotence.  prev_st d prev: the value currently held is None or itself stable (stable d w: canonical
+   shape and every leaf returned bit-identically by its leaf validation - which is what every earlier result of
+   validate is, by the third conjunct) *)
+Theorem C01_validate_idempotent_partial : forall d, wf d -> idem_dt d = true -> forall v prev w,
+  prev_st d prev -> dt_validate d v prev = Ok w -> scaled_ok d w = true ->
+  res_same (dt_validate d w PNone) (Ok w) = true /\ res_same (dt_validate d w w) (Ok w) = true /\
+  stable d w = true.
+Proof. exact validate_idempotent. Qed.
+
+(* the datatype-level statement: every scaled leaf has a grid of at most 2^48 steps on either side of zero *)
+Theorem C01_validate_idempotent_except_huge_grids : forall d, wf d -> idem_dt d = true -> small_grids d = true ->
+  forall v prev w, prev_st d prev -> dt_validate d v prev = Ok w ->
+  res_same (dt_validate d w PNone) (Ok w) = true /\ res_same (dt_validate d w w) (Ok w) = true /\
+  stable d w = true.
+Proof. exact validate_idempotent_small. Qed.
+
+Theorem C01_wire_idempotent_except_huge_grids : forall E d, wf d -> idem_dt d = true -> small_grids d = true ->
+  forall j prev w, prev_st d prev -> wire E d j prev = Ok w ->
+  res_same (dt_validate d w PNone) (Ok w) = true /\ res_same (dt_validate d w w) (Ok w) = true /\
+  stable d w = true.
+Proof. exact wire_idempotent_small. Qed.
+
+(* on a small grid every value returned by ScaledInteger.validate is reproduced by the rounding to the grid and lies
+   strictly inside the acceptance window *)
+Theorem C01_scaled_small_grid_regular : forall s mn mx v x,
+  scaled_small s mn mx = true -> wf (TScaled s mn mx) -> scaled_validate s mn mx v = Ok x ->
+  scaled_leaf_ok s mn mx x = true.
+Proof. exact scaled_small_leaf_ok. Qed.
+
+Theorem C01_wire_idempotent_partial : forall E d, wf d -> idem_dt d = true -> forall j prev w,
+  prev_st d prev -> wire E d j prev = Ok w -> scaled_ok d w = true ->
+  res_same (dt_validate d w PNone) (Ok w) = true /\ res_same (dt_validate d w w) (Ok w) = true /\
+  stable d w = true.
+Proof. exact wire_idempotent. Qed.
+
+(* a stable value is returned unchanged (no side condition, no assumption on the datatype) *)
+Theorem C01_stable_fixed_point : forall d w, stable d w = true ->
+  res_same (dt_validate d w PNone) (Ok w) = true /\ res_same (dt_validate d w w) (Ok w) = true.
+Proof.
+  intros d w H. destruct (stable_fix d w H) as [A B]. rewrite A, B. split; apply res_same_refl_ok.
+Qed.
+
+(* ---- canonical representation kinds, at every depth; prev_canon d prev: None or a canonical value *)
+Theorem C01_canonical_kind : forall d v prev w,
+  prev_canon d prev -> dt_validate d v prev = Ok w -> canon d w = true.
+Proof. exact validate_canon. Qed.
+
+Theorem C01_wire_canonical_kind : forall E d j prev w,
+  prev_canon d prev -> wire E d j prev = Ok w -> canon d w = true.
+Proof. exact wire_canon. Qed.
+
 (* non-vacuity and regression: a nested well-formed type, a value that validates into the set, guards that hold,
    and the repaired behaviour on the inputs of the former findings *)
 Definition E0 : pyenv := {| int_of := []; b64_of := [(false, [89%N; 87%N; 74%N; 113%N], [97%N; 98%N; 99%N])] |}.
@@ -95,6 +170,30 @@ Example C01_repaired_behaviour :
            (Ok (PDict [(sa, PInt 3)])) = true.
 Proof. repeat split; vm_compute; reflexivity. Qed.
 
+(* non-vacuity of the idempotence statements: the guards hold for the nested demo type (double, scaled leaf), a
+   result of validate satisfies the scaled side condition and is stable, a complete previous value is stable;
+   the negative zero as a limit (which the constructors never produce) is where bit identity would fail *)
+Example C01_idem_nonvacuous :
+  idem_dt demo_d = true /\
+  match dt_validate demo_d (PDict [([97%N], PList [PInt 3; PFloat (fmk 19 (-1))]); ([98%N], PFloat (fmk 5 (-1)))]) PNone with
+  | Ok w => scaled_ok demo_d w && stable demo_d w && canon demo_d w
+  | Err _ => false
+  end = true /\
+  stable demo_d (PDict [([97%N], PTuple [PFloat (of_Z 3)])]) = true /\
+  scaled_leaf_ok (fmk 1 (-1)) fzero (of_Z 10) (PFloat (fmk 5 (-1))) = true /\
+  small_grids demo_d = true /\
+  (* scale 0.001, limits -1e6 .. 1e6 (10^9 steps) *)
+  scaled_small (fmk 1152921504606847 (-60)) (fmk (-1000000) 0) (fmk 1000000 0) = true /\
+  small_grids (TArray (TTuple [TInt 0 5; TEnum [(sa, 1%Z); ([98%N], 2%Z)]]) 0 3) = true /\
+  small_grids huge_d = false.
+Proof. repeat split; vm_compute; reflexivity. Qed.
+
+Example C01_negzero_limit_is_outside_idem_dt :
+  idem_dt (TFloat fnegzero (of_Z 1) (fmk 1 (-1)) fzero) = false /\
+  res_same (dt_validate (TFloat fnegzero (of_Z 1) (fmk 1 (-1)) fzero) (PFloat (fmk (-1) (-2))) PNone) (Ok (PFloat fnegzero)) = true /\
+  res_same (dt_validate (TFloat fnegzero (of_Z 1) (fmk 1 (-1)) fzero) (PFloat fnegzero) PNone) (Ok (PFloat fzero)) = true.
+Proof. repeat split; vm_compute; reflexivity. Qed.
+
 Print Assumptions C01_source_facts.
 Print Assumptions C01_validate_sound.
 Print Assumptions C01_wire_sound.
@@ -104,3 +203,12 @@ Print Assumptions C01_wire_total.
 Print Assumptions C01_import_kinds.
 Print Assumptions C01_array_length.
 Print Assumptions C01_clamp_between.
+Print Assumptions C01_validate_idempotent_partial.
+Print Assumptions C01_validate_idempotent_except_huge_grids.
+Print Assumptions C01_wire_idempotent_except_huge_grids.
+Print Assumptions C01_scaled_small_grid_regular.
+Print Assumptions C01_wire_idempotent_partial.
+Print Assumptions C01_stable_fixed_point.
+Print Assumptions C01_canonical_kind.
+Print Assumptions C01_wire_canonical_kind.
+Print Assumptions C01_refuted_idempotent_scaled_huge.
